@@ -152,10 +152,18 @@ func doOp(st *gstate, op int, d []byte, salt uint64) uint64 {
 		}
 		return hashRes(p, e, hashTree(v))
 	case 9:
-		s, p, e := rjson.ReadString(d, &st.scratch)
+		scr := &st.scratch
+		if buf == nil { // every optional argument is also exercised as nil
+			scr = nil
+		}
+		s, p, e := rjson.ReadString(d, scr)
 		return hashRes(p, e, h.HashString(s))
 	case 10:
 		var b []byte
+		if buf == nil {
+			b, p, e := rjson.ReadStringBytes(d, nil)
+			return hashRes(p, e, h.Hash(b))
+		}
 		b, p, e := rjson.ReadStringBytes(d, st.dst[:0])
 		x := hashRes(p, e, h.Hash(b))
 		if e == nil {
@@ -164,6 +172,10 @@ func doOp(st *gstate, op int, d []byte, salt uint64) uint64 {
 		return x
 	case 11:
 		var b []byte
+		if buf == nil {
+			b, p, e := rjson.UnescapeStringContent(d, nil)
+			return hashRes(p, e, h.Hash(b))
+		}
 		b, p, e := rjson.UnescapeStringContent(d, st.dst[:0])
 		x := hashRes(p, e, h.Hash(b))
 		if e == nil {
@@ -172,7 +184,11 @@ func doOp(st *gstate, op int, d []byte, salt uint64) uint64 {
 		return x
 	case 12:
 		s := "t"
-		p, e := rjson.DecodeString(d, &s, &st.scratch)
+		scr := &st.scratch
+		if buf == nil {
+			scr = nil
+		}
+		p, e := rjson.DecodeString(d, &s, scr)
 		return hashRes(p, e, h.HashString(s))
 	case 13:
 		v, p, e := rjson.ReadInt64(d)
@@ -263,7 +279,11 @@ func doOp(st *gstate, op int, d []byte, salt uint64) uint64 {
 		return hashRes(p, e, hashTree(v))
 	case 28:
 		s := rjson.StdLibCompatibleString(string(d))
-		b := rjson.StdLibCompatibleStringBytes(d, st.dst[:0])
+		dst := st.dst[:0]
+		if buf == nil {
+			dst = nil
+		}
+		b := rjson.StdLibCompatibleStringBytes(d, dst)
 		return mix(h.HashString(s), h.Hash(b))
 	default:
 		v, _, e := rjson.ReadValue(d)
